@@ -32,7 +32,7 @@ func AllFaultKinds() []string {
 	for _, u := range UnexpectedKinds {
 		l = append(l, "shape:"+u)
 	}
-	l = append(l, "text-file", "bak-file", "dir", "dir-named-go", "dangling-symlink-go", "dangling-symlink", "symlink-to-dir-go", "unannotated")
+	l = append(l, "text-file", "bak-file", "dir", "dir-named-go", "dangling-symlink-go", "dangling-symlink", "symlink-to-dir-go", "symlink-to-go-file", "unannotated")
 	// files that sit next to a healthy Go file under the names editors, backup and "atomic write" schemes use
 	for _, sfx := range SiblingSuffixes {
 		l = append(l, "sibling:"+sfx)
@@ -48,6 +48,16 @@ var SiblingSuffixes = []string{".tmp", ".bak", "~", ".orig", ".new", ".swp"}
 
 // siblingOf turns a "sibling:<sfx>" entry into a neighbour of one of the healthy Go files already in the plan.
 func siblingOf(r *detsim.Rand, p *Plan, e Entry, kind string) Entry {
+	if kind == "symlink-to-go-file" {
+		for i := range p.Entries {
+			if p.Entries[i].Kind == KGo && p.Entries[i].Break == "" && p.Entries[i].Perm == "" {
+				e.Raw = "file:" + p.Entries[i].Name
+				return e
+			}
+		}
+		e.Raw = "" // no healthy neighbour: a dangling link
+		return e
+	}
 	if len(kind) <= 8 || kind[:8] != "sibling:" {
 		return e
 	}
@@ -109,6 +119,8 @@ func faultEntry(r *detsim.Rand, kind, pos string, i int) Entry {
 		return Entry{Name: stem + ".lnk", Kind: KSymlink}
 	case "symlink-to-dir-go":
 		return Entry{Name: name, Kind: KSymlink, Raw: "dir"}
+	case "symlink-to-go-file":
+		return Entry{Name: name, Kind: KSymlink, Raw: "file:"} // the caller points it at a healthy neighbour (siblingOf)
 	}
 	return Entry{Name: name, Kind: KGo, File: GenHealthy(r, "pb", false)}
 }
